@@ -144,7 +144,60 @@ func selftestSensitivity(args []string) int {
 	return 0
 }
 
+// selftest determinism [nseeds]: for VERIF_SEED = 1..nseeds and every claimed property, the same 64 run
+// indices are executed in three separate worker processes with GOMAXPROCS 1, 4 and 16; the hash over the
+// full per-run event logs (tape, observations, verdicts) must be identical.
 func selftestDeterminism(args []string) int {
-	die2("use: verif selftest determinism is implemented as scripts/determinism.sh")
-	return 2
+	nseeds := 3
+	if len(args) > 0 {
+		fmt.Sscan(args[0], &nseeds)
+	}
+	bad := 0
+	total := 0
+	for seed := 1; seed <= nseeds; seed++ {
+		os.Setenv("VERIF_SEED", fmt.Sprint(seed))
+		scratch := newScratch()
+		gb := prepareGen(scratch)
+		corpus := genCorpus(true)
+		rb := prepareRT(scratch)
+		for _, prop := range []string{"C12", "C19", "C09", "C10", "C14", "C20"} {
+			var hashes []string
+			for _, gmp := range []string{"1", "4", "16"} {
+				os.Setenv("VERIF_WORKER_GOMAXPROCS", gmp)
+				var h string
+				switch prop {
+				case "C12", "C19":
+					j := genJob{Mode: strings.ToLower(prop) + "det", Seed: uint64(seed), Corpus: corpus, Sites: gb.Report.Sites, CLI: gb.CLI, MaxRuns: 64, ShrinkS: 1, CLIFrac: 100}
+					rs, err := runGenJobs(gb, j, 1, 15*time.Minute)
+					if err != nil {
+						die2("%v", err)
+					}
+					h = rs[0].LogHash
+				default:
+					j := rtJob{Mode: "det", Property: prop, Seed: uint64(seed), MaxRuns: 64, Det: true}
+					rs, err := runRTJobs(rb, j, 1, 15*time.Minute)
+					if err != nil {
+						die2("%v", err)
+					}
+					h = rs[0].LogHash
+				}
+				hashes = append(hashes, h)
+			}
+			os.Unsetenv("VERIF_WORKER_GOMAXPROCS")
+			ok := hashes[0] == hashes[1] && hashes[1] == hashes[2]
+			total += 64
+			status := "identical"
+			if !ok {
+				status = "DIVERGED"
+				bad++
+			}
+			fmt.Printf("seed=%d %s: 64 runs x 3 processes (GOMAXPROCS 1/4/16): %s %v\n", seed, prop, status, hashes)
+		}
+		cleanupScratch()
+	}
+	fmt.Printf("determinism: %d run-seeds x 3 processes each, %d divergences\n", total, bad)
+	if bad > 0 {
+		return 1
+	}
+	return 0
 }
